@@ -38,7 +38,7 @@ private:
   void TupleDeclaration(SyntaxTree::Node& declaration, SyntaxTree::Node& predicate);
 
   [[nodiscard]] std::string ProcessTupleDeclaration(SyntaxTree::Node& root);
-  void SubstituteTupleVariables(SyntaxTree::Node& target, const std::string& newName);
+  void SubstituteTupleVariables(SyntaxTree::Node& target, const std::string& newName, Index skipChild = -1);
   
   [[nodiscard]] static std::vector<std::string> ArgNames(const SyntaxTree::Node& declaration);
   void SubstituteArgs(SyntaxTree::Node& target, StrRange pos);
